@@ -8,6 +8,7 @@ import PycfModel.Model.Template
 import PycfModel.Model.IamCond
 import PycfModel.Model.Net
 import PycfModel.Model.Policy
+import PycfModel.Model.Discover
 import PycfModel.Generated.Net
 /-
 Line protocol driver: one JSON operation per input line, one JSON result per output line.
@@ -140,6 +141,32 @@ def kvsOf (j : Json) : Except String (List (String × IamCond.V)) := do
     | _ => .error "bad key/value"
   | _ => .error "array expected"
 
+partial def tvOf (j : Json) : Except String Discover.TV := do
+  match j with
+  | .str "other" => pure .other
+  | .obj _ =>
+    match j.getObjVal? "doc" with
+    | .ok (.num n) => pure (.doc n.mantissa.toNat)
+    | _ =>
+    match j.getObjVal? "policy" with
+    | .ok (.arr #[.str name, .num n]) => pure (.policy name n.mantissa.toNat)
+    | _ =>
+    match j.getObjVal? "named" with
+    | .ok (.arr #[.str name, .num n]) => pure (.named (some name) n.mantissa.toNat)
+    | .ok (.arr #[.null, .num n]) => pure (.named none n.mantissa.toNat)
+    | _ =>
+    match j.getObjVal? "list" with
+    | .ok (.arr xs) => do pure (.list (← xs.toList.mapM tvOf))
+    | _ =>
+    match j.getObjVal? "generic" with
+    | .ok (.arr fs) => do
+      let fields ← fs.toList.mapM fun f => match f with
+        | .arr #[.str k, v] => do pure (k, ← tvOf v)
+        | _ => .error "bad field"
+      pure (.generic fields)
+    | _ => .error s!"bad typed value {j.compress}"
+  | _ => .error s!"bad typed value {j.compress}"
+
 def outside : Json := Json.mkObj [("outside_domain", .bool true)]
 
 def runOp (j : Json) : Except String Json := do
@@ -235,6 +262,13 @@ def runOp (j : Json) : Except String Json := do
       ("nonwl", .arr (stmts.map fun s => strList (Policy.nonWhitelisted wl (Policy.principalList fields s.principal s.notPrincipal))).toArray),
       ("allowed", sortedSet (Policy.allowedPrincipals fields stmts)),
       ("nonwl_allowed", sortedSet (Policy.nonWhitelistedAllowed fields wl stmts))])
+  | "discover" =>
+    match ← tvOf (← (j.getObjVal? "fields")) with
+    | .generic fields =>
+      let found := Discover.policyDocuments fields
+      pure (Json.mkObj [("found", .arr (found.map fun f =>
+        Json.arr #[match f.name with | some n => .str n | none => .null, .num ⟨f.id, 0⟩]).toArray)])
+    | _ => .error "fields must be a generic node"
   | "tokens" =>
     let t ← getStr j "text"
     let toks := Resolver.tokens t.toList
